@@ -48,7 +48,7 @@ def MATCH(lookup_value, lookup_array, match_type=1):
                     index_value = lookup_array[idx]
         elif match_type == 0:
             if isinstance(lookup_value, string_types):
-                if fnmatch.fnmatch(lookup_array[idx].lower(), lookup_value.lower()):
+                if fnmatch.fnmatch(lookup_array[idx].lower(), utils.wildcards_only(lookup_value.lower())):
                     return idx + 1
             else:
                 if lookup_array[idx] == lookup_value:
